@@ -174,6 +174,11 @@ def record(ops, policy_seed=0):
             if d.cl[op["c"]].waiting or d.cl[op["c"]].in_wait:
                 continue
             inbatch.add("k1")
+        if k in ("tick", "watchdog", "connect"):
+            # the server-internal loops are one pseudo-connection: once per batch
+            if "svc" in inbatch:
+                flush()
+            inbatch.add("svc")
         if k == "setinfo":
             flush()
             j = d.wq.id2job.get(op["id"])
